@@ -243,6 +243,11 @@ func runThorough(prog *Program, id string, base *PropertyResult, opts RunOptions
 			refFail[o.Rule]++
 		}
 	}
+	// refactorings the rules are known not to follow (documented in DESIGN.md section 12): name -> reason
+	shapeLimit := map[string]string{}
+	if b, err := os.ReadFile(filepath.Join(opts.VerifDir, "selftest", "benign", "EXPECTED_ALARMS.json")); err == nil {
+		_ = json.Unmarshal(b, &shapeLimit)
+	}
 	var wg4 sync.WaitGroup
 	for i, patch := range benign {
 		wg4.Add(1)
@@ -288,8 +293,8 @@ func runThorough(prog *Program, id string, base *PropertyResult, opts RunOptions
 		}(i, patch)
 	}
 	wg4.Wait()
-	nSilent, nBenSkip := 0, 0
-	for _, r := range bres {
+	nSilent, nBenSkip, nLimit := 0, 0, 0
+	for bi, r := range bres {
 		switch r.Status {
 		case "silent":
 			nSilent++
@@ -297,6 +302,12 @@ func runThorough(prog *Program, id string, base *PropertyResult, opts RunOptions
 		case "skipped":
 			nBenSkip++
 		case "alarms":
+			if why, listed := shapeLimit[r.Name]; listed {
+				nLimit++
+				bres[bi].Status = "shape-limit"
+				bres[bi].Detail = why
+				continue
+			}
 			add("T4", "refactoring "+r.Name+" raises no alarm", UNDECIDED, "a behaviour-preserving refactoring makes rules of this property fail: %v - the rule matches the shape of today's code, not the mechanism (a false alarm in waiting)", r.Alarms)
 		default:
 			add("T4", "refactoring "+r.Name+" raises no alarm", UNDECIDED, "the refactored tree could not be analysed: %s", r.Detail)
@@ -305,6 +316,7 @@ func runThorough(prog *Program, id string, base *PropertyResult, opts RunOptions
 	res.Coverage["refactorings_run"] = len(bres) - nBenSkip
 	res.Coverage["refactorings_silent"] = nSilent
 	res.Coverage["refactorings_skipped"] = nBenSkip
+	res.Coverage["refactorings_beyond_the_rules"] = nLimit
 	res.Coverage["refactorings"] = bres
 	res.Coverage["variants_run"] = len(results) - nSkip
 	res.Coverage["variants_detected"] = nDet
